@@ -179,7 +179,8 @@ def _worker(job):
     try:
         sd = job.opts.get('scale_depth')
         res['scale_depth'] = sd
-        ses = Session(_PROG_SCALED if sd else _PROG, seed=_SEED, solver_timeout_ms=job.opts.get('solver_timeout_ms', 20000))
+        _p = _PROG_SCALED if sd else _PROG
+        ses = Session(_p, seed=_SEED, solver_timeout_ms=job.opts.get('solver_timeout_ms', 20000))
         ex = ses.ex
         for k, v in job.opts.items():
             if k.startswith('ex.'):
@@ -209,6 +210,8 @@ def _worker(job):
         cellsout = []
         tmo = job.timeout or _DEFAULT_TIMEOUT
         deadline = time.time() + tmo if tmo else None
+        if (job.pkg + '.' + job.harness) not in _p.funcs:
+            raise ToolError('harness %s not present on this tree (optional harness file left out)' % job.harness)
         terms = ses.run(job.pkg + '.' + job.harness, _make_args(job, cellsout), deadline=deadline)
         nbytes = ex.store.nbytevars
         total = 0
